@@ -101,6 +101,10 @@ type Hist struct {
 	S        *Shadow
 	Names    map[string]string // wallet id -> name
 	Vars     map[string]interface{}
+	// per block (by hash): events and op names of the applied transactions, in order (used by the determinism engine;
+	// operation builders may submit prerequisite transactions and seal blocks themselves, so this is recorded here)
+	BlockEv    map[string][]event.Event
+	BlockNames map[string][]string
 }
 
 // V reports a violation for property p with history context attached.
@@ -219,6 +223,10 @@ func (h *Hist) Submit(c *Call, monitors []Monitor) *TxnObs {
 		rec.Output = trunc(txn.TransactionOutput, 120)
 	}
 	rec.Outcome = o.Outcome
+	if o.Outcome != "rejected" && h.BlockEv != nil {
+		h.BlockEv[h.BC.B.Hash] = append(h.BlockEv[h.BC.B.Hash], ev...)
+		h.BlockNames[h.BC.B.Hash] = append(h.BlockNames[h.BC.B.Hash], c.Name+"/"+o.Outcome)
+	}
 	h.Log = append(h.Log, rec)
 	fmt.Printf("RES %s %d %s %s\n", h.ID, rec.Idx, rec.Outcome, trunc(rec.Output, 400))
 	debugOps(h, o)
